@@ -391,3 +391,22 @@ Definition check_wrap (k : wcase) : bool :=
   | Ok (OpTens _ id, _) => negb (w_err k) && Bool.eqb (w_shares k) (id =? 0)%nat
   | Ok _ => false
   end.
+
+(* ---------------- binary legacy ufuncs on nested power spaces, any second operand ---------------- *)
+Inductive tobs := TErr (e : errk) | TOk (t : ptreeQ).
+Record l2case := mkL2Case {
+  l2_pv : bool;                     (* measured variant: __array__ accepts a dtype *)
+  l2_op : bop; l2_rdt : list (dt * dt); l2_out : bool;
+  l2_tree : ptreeQ; l2_arg : @arg2 Q;
+  l2_legacy : tobs;                 (* X.ufuncs.<name>(x2[, out=...]) *)
+  l2_numpy : option (list Q) }.     (* NumPy on the stacked arrays (flat), when it has the shape and dtype of X *)
+Definition check_legacy2 (k : l2case) : bool :=
+  let F := assoc_dt (l2_rdt k) in
+  let f := fun (_ : dt) => bop_ev (l2_op k) in
+  match legacy2 castQ (l2_pv k) F f (l2_out k) (l2_tree k) (l2_arg k), l2_legacy k with
+  | Err e, TErr e' => errk_eqb e e'
+  | Ok r, TOk t =>
+      ptree_close r t
+      && match l2_numpy k with Some fl => Qsclose tol tol fl (flat r) | None => true end
+  | _, _ => false
+  end.
